@@ -73,6 +73,28 @@ impl Payload {
     pub fn unread_data(&mut self, data: Bytes) {
         self.inner.borrow_mut().unread_data(data);
     }
+
+    /// Read-only snapshot of the private channel state, for the external model-checking harness
+    /// (state keys and coverage counters only; compiled only with `--cfg actix_web_verif`).
+    ///
+    /// Returns `(len, eof, has_err, sender_closed, need_read, item_lens, reader_waker_registered,
+    /// io_waker_registered)`.
+    #[cfg(actix_web_verif)]
+    #[doc(hidden)]
+    #[allow(clippy::type_complexity)]
+    pub fn verif_snapshot(&self) -> (usize, bool, bool, bool, bool, Vec<usize>, bool, bool) {
+        let inner = self.inner.borrow();
+        (
+            inner.len,
+            inner.eof,
+            inner.err.is_some(),
+            inner.sender_closed,
+            inner.need_read,
+            inner.items.iter().map(|b| b.len()).collect(),
+            inner.task.is_some(),
+            inner.io_task.is_some(),
+        )
+    }
 }
 
 impl Stream for Payload {
